@@ -26,6 +26,8 @@ CHECKS = {
          "metrics bounded by 2^20; HarfBuzz by contract; scale arithmetic inside HarfBuzz outside"),
  "C13": ("history independence by comparing an object used before with a fresh one on symbolic arguments: shaping.Segmenter.Split (two inputs)",
          "only the itemizer (shaping.Segmenter) is covered so far; shaper caches, faces, line wrapper and segmenter.Segmenter reuse are not covered yet"),
+ "C14": ("the real FontMap.ResolveFace / SetQuery / SetScript / rune LRU on histories over a database with symbolic coverage, with arbitrary candidate lists per (query, script): non-nil result and equality with an uncached reference computed from the current state only",
+         "candidate construction (family substitution, exact-family selection) is stubbed by contract; maphash is a concrete FNV fold for concrete strings (collisions not explored); AddFace/AddFont, font loading errors and system fonts are outside; histories and the probed rune domain are bounded as stated"),
  "C15": ("symbolic execution of the real retainsBestMatches/matchStretch/matchStyle/matchWeight/filterBy* over candidate sets whose aspects are symbolic grid values (IEEE float32 terms), every request case-split; the solver decides equality with a CSS Fonts §5.2 reference for all candidate multisets of the bounded size",
          "values off the grid and larger candidate sets outside"),
  "C16": ("every deserializer of the index format (string, aspect, script/rune/lang sets, footprint, footprint list, file entry) executed on arbitrary symbolic byte strings (totality, read counts) and serialize->deserialize round trips of symbolic footprints and file entries, float aspects compared by bit pattern",
@@ -53,6 +55,7 @@ def main():
                 "evidence_file": "/verif/evidence/%s.json" % pid, "replay_cmd_template": "./check --replay {path}", "engine": "gosym",
                 "level_claimed": {"category": "model_checking", "text": text, "design_ref": "DESIGN.md §3 " + pid},
                 "level_note": NOTE + "; " + extra, "technique": TECH})
+    m['setup_cmd'] = 'cd /verif && ./setup.sh'
     m['not_applicable'] = []
     for pid in props:
         if pid not in CHECKS:
